@@ -38,6 +38,13 @@ pub struct CConfig {
 
 pub const TARGETS: [usize; 4] = [1, 1500, 6000, 1 << 30];
 
+impl ChunkSpec {
+    /// one in four specs (bits 3-4 of `schema`) describes a chunk that straddles an hour boundary
+    pub fn straddles(&self) -> bool {
+        (self.schema / 8) % 4 == 3
+    }
+}
+
 impl CConfig {
     pub fn build(&self) -> CompactorConfig {
         CompactorConfig {
@@ -58,7 +65,11 @@ pub fn chunk_batch(spec: &ChunkSpec, idx: usize, now: i64, rid0: i64) -> RecordB
     let n = 1 + (spec.rows % 6) as usize;
     let base = now - (spec.hours_ago as i64 % 72) * HOUR;
     let base = base - base.rem_euclid(HOUR) + 60_000_000_000; // one minute into the hour bucket
-    let ts: Vec<i64> = (0..n).map(|k| base + (idx as i64 * 13 + k as i64 * 7) * 1_000_000_000 % (HOUR - 120_000_000_000)).collect();
+    let mut ts: Vec<i64> = (0..n).map(|k| base + (idx as i64 * 13 + k as i64 * 7) * 1_000_000_000 % (HOUR - 120_000_000_000)).collect();
+    if spec.straddles() && n >= 2 {
+        // the chunk spans two hour buckets: its oldest row lies in the hour before
+        ts[0] -= HOUR;
+    }
     let mut fields = vec![
         Field::new("timestamp", DataType::Timestamp(TimeUnit::Nanosecond, Some("UTC".into())), false),
         Field::new("metric_name", DataType::Utf8, false),
